@@ -43,6 +43,7 @@ type FuncContract struct {
 	Atomic     bool
 	Unroll     map[int]int
 	Safe       map[string]bool
+	Fresh      map[int]bool // result indices claimed to share no memory with inputs (ownership rule)
 	GhostVars  []SpecParam         // ghost variables: name, Go type
 	GhostCall  map[string][]Clause // callee text -> ghost assignments 'lhs = rhs' executed at each such call (after its callreq)
 	RecvAssume map[string][]Clause // channel expression text -> assumption about every value received from it (a1)
@@ -255,6 +256,19 @@ func (pc *PkgContracts) parseFile(path string) error {
 				}
 			case "inline":
 				cur.Inline = true
+			case "fresh":
+				for _, k := range strings.FieldsFunc(rest, func(r rune) bool { return r == ',' || r == ' ' }) {
+					idx := 0
+					if k != "result" {
+						if _, err := fmt.Sscanf(k, "r%d", &idx); err != nil {
+							return fmt.Errorf("%s:%d: fresh wants result or rN, got %q", path, l.line, k)
+						}
+					}
+					if cur.Fresh == nil {
+						cur.Fresh = map[int]bool{}
+					}
+					cur.Fresh[idx] = true
+				}
 			case "atomic":
 				cur.Atomic = true
 			case "assume-contract":
@@ -297,7 +311,7 @@ func (pc *PkgContracts) parseFile(path string) error {
 					return fmt.Errorf("%s:%d: ghost needs 'name type'", path, l.line)
 				}
 				cur.GhostVars = append(cur.GhostVars, SpecParam{rest[:i], strings.TrimSpace(rest[i+1:])})
-			case "ghostcall", "recvassume":
+			case "ghostcall", "recvassume", "ghostafter":
 				i := strings.Index(rest, ":")
 				if i < 0 {
 					return fmt.Errorf("%s:%d: %s needs 'target: text'", path, l.line, word)
@@ -306,6 +320,9 @@ func (pc *PkgContracts) parseFile(path string) error {
 				c := Clause{Text: strings.TrimSpace(rest[i+1:]), Line: l.line, File: path}
 				if word == "ghostcall" {
 					cur.GhostCall[tgt] = append(cur.GhostCall[tgt], c)
+				} else if word == "ghostafter" {
+					// executed after the statement containing the call (its results are in scope)
+					cur.GhostCall["after:"+tgt] = append(cur.GhostCall["after:"+tgt], c)
 				} else {
 					cur.RecvAssume[tgt] = append(cur.RecvAssume[tgt], c)
 				}
